@@ -7,6 +7,12 @@ use crate::refm::transport::START;
 /// `end`: what the final finalize()/reset() reported: Some(n) = n bytes discarded, None = nothing.
 /// Returns Err(description) if the log is not a tiling of `s`.
 pub fn check_tiling(s: &[u8], log: &Log, end: Option<usize>) -> Result<TilingStats, String> {
+    check_tiling_opt(s, log, end, true)
+}
+
+/// `exact_ok`: the payloads in the log are real, so the range of a delivered frame is known exactly (it is
+/// the canonical frame of the payload) and must begin precisely at the previous boundary.
+pub fn check_tiling_opt(s: &[u8], log: &Log, end: Option<usize>, exact_ok: bool) -> Result<TilingStats, String> {
     let mut seg_start = 0usize;
     let mut st = TilingStats::default();
     for (i, ev) in log {
@@ -52,6 +58,20 @@ pub fn check_tiling(s: &[u8], log: &Log, end: Option<usize>) -> Result<TilingSta
                         seg_start,
                         first_start_from(s, seg_start).map(|x| x - seg_start).unwrap_or(0)
                     ));
+                }
+                if let (true, TEv::Ok(m)) = (exact_ok, ev) {
+                    let fl = crate::refm::transport::ref_frame_len(m);
+                    if i + 1 < fl || i + 1 - fl != seg_start {
+                        return Err(format!(
+                            "Ok({}-byte payload) at position {}: its frame occupies the last {} bytes (from offset {}), but the previous boundary is at offset {}: {} byte(s) in between are accounted for by no report",
+                            m.len(),
+                            i,
+                            fl,
+                            (i + 1).saturating_sub(fl),
+                            seg_start,
+                            (i + 1).saturating_sub(fl).saturating_sub(seg_start)
+                        ));
+                    }
                 }
                 st.frames += 1;
                 seg_start = i + 1;
@@ -141,6 +161,13 @@ pub fn selftest() -> Result<(), String> {
     check_tiling(&s, &good, None).map_err(|e| format!("tiling checker rejects a correct log: {}", e))?;
     let bad1: Log = vec![(12, TEv::Err(DErr::Discarded(4))), (s.len() - 1, TEv::Ok(vec![1, 2, 3, 4]))];
     let bad2: Log = vec![(s.len() - 1, TEv::Ok(vec![1, 2, 3, 4]))];
+    // a second start sequence swallowed silently: the delivered frame does not begin at the previous boundary
+    let mut s2 = crate::refm::transport::START.to_vec();
+    s2.extend_from_slice(&f);
+    let bad3: Log = vec![(s2.len() - 1, TEv::Ok(vec![1, 2, 3, 4]))];
+    if check_tiling(&s2, &bad3, None).is_ok() {
+        return Err("tiling checker accepts a silently swallowed start sequence".into());
+    }
     if check_tiling(&s, &bad1, None).is_ok() || check_tiling(&s, &bad2, None).is_ok() || check_tiling(&s, &good, Some(3)).is_ok() {
         return Err("tiling checker accepts a planted violation".into());
     }
